@@ -177,6 +177,22 @@ def gauss_solve(A, b, zero, one):
     return [M[i][n] for i in range(n)]
 
 
+def prune_support(system, known, zero):
+    """Variables that cannot be non-zero are zero; monomials using them vanish.
+    Returns (values of the pruned variables, reduced system)."""
+    supp = {v for v, x in known.items() if not (x == zero)}
+    ch = True
+    while ch:
+        ch = False
+        for v, monos in system.items():
+            if v not in supp and any(all(u in supp for u in vs) for (_, vs) in monos):
+                supp.add(v)
+                ch = True
+    dead = {v: zero for v in system if v not in supp}
+    reduced = {v: [(c, vs) for (c, vs) in monos if all(u in supp for u in vs)] for v, monos in system.items() if v in supp}
+    return dead, reduced
+
+
 class FieldAlg:
     def __init__(self, exact=True):
         self.exact = exact
@@ -194,6 +210,8 @@ class FieldAlg:
 
     def lfp(self, system, known):
         val = dict(known)
+        dead, system = prune_support(system, known, self.zero)
+        val.update(dead)
 
         def succ(v):
             return [u for (_, vs) in system[v] for u in vs if u in system]
@@ -299,6 +317,8 @@ class IdemAlg:
 
     def lfp(self, system, known):
         val = dict(known)
+        dead, system = prune_support(system, known, self.zero)
+        val.update(dead)
 
         def succ(v):
             return [u for (_, vs) in system[v] for u in vs if u in system]
@@ -353,19 +373,8 @@ class GenericAlg:
 
     def lfp(self, system, known):
         val = dict(known)
-        # support pruning: variables that cannot be non-zero are zero; monomials using them vanish
-        supp = {v for v, x in known.items() if not (x == self.zero)}
-        ch = True
-        while ch:
-            ch = False
-            for v, monos in system.items():
-                if v not in supp and any(all(u in supp for u in vs) for (_, vs) in monos):
-                    supp.add(v)
-                    ch = True
-        for v in system:
-            if v not in supp:
-                val[v] = self.zero
-        system = {v: [(c, vs) for (c, vs) in monos if all(u in supp for u in vs)] for v, monos in system.items() if v in supp}
+        dead, system = prune_support(system, known, self.zero)
+        val.update(dead)
 
         def succ(v):
             return [u for (_, vs) in system[v] for u in vs if u in system]
